@@ -525,6 +525,48 @@ def check_membership(tier):
         evals.append(("term_class_is_origin_of_deep_types", (cls.__name__, tname(want)), True))
         if type(t) is not want and "__BOUND" not in repr(t):
             viol.append(("term_class_is_origin_of_deep_types", "type(term)=%s expected %s" % (tname(type(t)), tname(want)), ("term_class", cls.__name__)))
+    # ... also after reinterpretation: children that evaluate change kind (Binary of Tensors -> Tensor), the parent that stays
+    # lazy must be re-specialised to the NEW children (reinterpret hands reflect an already specialised class)
+    from funsor.interpreter import reinterpret
+    from funsor.interpretations import lazy as lazy_interp
+
+    t1 = Tensor(np.arange(3.0), OrderedDict(i=Bint[3]))
+    t2 = Tensor(np.arange(3.0) + 1, OrderedDict(i=Bint[3]))
+    xr, yr = Variable("x", Real), Variable("y", Reals[2])
+    lazy_builders = [
+        lambda: ((t1 + t2) + xr).exp(), lambda: ((t1 * t2) * xr).log(), lambda: (t1 + t2)(i="j") + xr, lambda: ((t1 + t2).reduce(ops.add, "i") + xr).exp(),
+        lambda: Stack("k", (t1 + t2, t1 + xr)), lambda: ((t1 + t2) + yr.sum()).reduce(ops.add, "i"), lambda: (-(t1 + t2)) * xr, lambda: Lambda(Variable("i", Bint[3]), (t1 + t2) + xr),
+    ]
+    for bi, bld in enumerate(lazy_builders):
+        try:
+            with lazy_interp:
+                e = bld()
+            r = reinterpret(e)
+        except Exception:
+            declined += 1
+            continue
+        seen = set()
+
+        def walk2(f):
+            if not isinstance(f, Funsor) or id(f) in seen:
+                return
+            seen.add(id(f))
+            yield f
+            for a in f._ast_values:
+                for b in (a if isinstance(a, tuple) else (a,)):
+                    for c in (b if isinstance(b, tuple) else (b,)):
+                        if isinstance(c, Funsor):
+                            yield from walk2(c)
+
+        for f in walk2(r):
+            try:
+                want = get_origin(type(f))[tuple(map(deep_type, f._ast_values))]
+            except Exception:
+                declined += 1
+                continue
+            evals.append(("term_class_is_origin_of_deep_types", ("reinterpreted", bi, get_origin(type(f)).__name__), True))
+            if type(f) is not want and "__BOUND" not in repr(f):
+                viol.append(("term_class_is_origin_of_deep_types", "after reinterpret: type(term)=%s but its arguments have deep types %s" % (tname(type(f)), tname(want)), ("term_class", "reinterpreted", get_origin(type(f)).__name__)))
     return evals, viol, declined, dict(objects=len(objs), real_term_nodes=len(term_args))
 
 
